@@ -90,6 +90,19 @@ def close(a, b, tol=TOL):
     return bool(np.abs(a - b).max(initial=0) <= tol * max(1.0, np.abs(b).max(initial=0)))
 
 
+def preserves(X, F, tol=TOL):
+    """X^T F X = F, the residual measured against the size of the terms that cancel"""
+    X = np.asarray(X, float)
+    res = np.abs(X.T @ F @ X - F).max()
+    return bool(np.isfinite(res) and res <= tol * max(1.0, np.abs(X).max() ** 2 * np.abs(F).max()))
+
+
+def det_tol(v):
+    with np.errstate(all="ignore"):
+        c = np.linalg.cond(v)
+    return max(1e-8, 1e-13 * c) if np.isfinite(c) else 1e-8
+
+
 def close_pm(a, b, tol=TOL):
     return close(a, b, tol) or close(a, -np.asarray(b), tol)
 
@@ -123,9 +136,9 @@ def eval_state(run, grp, names, A, obs, scale, path):
             J = FORM_ONLY[nm]
             if v.shape != J.shape or np.iscomplexobj(v):
                 return vals, ("shape:" + nm, "library value %r" % (brief(v),))
-            if not (close(v.T @ J @ v, J) and close(v @ J @ v.T, J)):
+            if not (preserves(v, J) and preserves(v.T, J)):
                 return vals, ("form_preserved:" + nm, "X^T J X = %r" % (brief(v.T @ J @ v),))
-            if not close(np.linalg.det(v), np.linalg.det(want)):
+            if not close(np.linalg.det(v), np.linalg.det(want), det_tol(v)):
                 return vals, ("determinant:" + nm, "det %r, spec %r" % (float(np.linalg.det(v)), float(np.linalg.det(want))))
             if not close(np.poly(v), np.poly(want), 1e-8):
                 return vals, ("conjugacy_class:" + nm, "characteristic polynomial %r, spec %r" % (brief(np.poly(v)), brief(np.poly(want))))
@@ -133,7 +146,8 @@ def eval_state(run, grp, names, A, obs, scale, path):
             if not close(v, want):
                 return vals, ("value:" + nm, "library %r, spec %r" % (brief(v), brief(want)))
         if nm.startswith("irrep") and obs["det"] == [1, 0] and not np.iscomplexobj(v):
-            if not close(np.linalg.det(v), 1.0, 1e-8):
+            # a float determinant is accurate to about eps * cond(v): tolerance scaled by the conditioning
+            if not close(np.linalg.det(v), 1.0, det_tol(v)):
                 return vals, ("determinant_one:" + nm, "det %r" % float(np.linalg.det(v)))
         if wrap is not None:
             try:
@@ -289,7 +303,7 @@ def walk(run, grp, r):
                         pg2, bad = pgl_checks(run, A, v2["so21"], o["det"] == [1, 0])
                     if not bad and K is not None:
                         ad = v2["adsl"]
-                        if not close(ad.T @ K @ ad, K):
+                        if not preserves(ad, K):
                             bad = ("killing_form.preserved", "Ad^T K Ad = %r" % (brief(ad.T @ K @ ad),))
                     if bad:
                         fail(p2, bad[0], bad[1], A)
@@ -447,8 +461,8 @@ def run(run, replay=None):
         "o_to_pgl is exercised on single 3x3 matrices (its docstring admits that array input is not implemented)",
     ]
     # (group, MaxLen, MaxIrrep, MaxDet)
-    plan = [("sl2z", 4, 6, 5), ("gl2z", 3, 4, 4), ("gl3z", 2, 2, 2), ("sl2zi", 3, 4, 2)] if quick else \
-           [("sl2z", 6, 6, 6), ("gl2z", 5, 6, 5), ("gl3z", 4, 2, 2), ("sl2zi", 4, 6, 2)]
+    plan = [("sl2z", 5, 6, 6), ("gl2z", 4, 4, 4), ("gl3z", 3, 2, 2), ("sl2zi", 3, 4, 2)] if quick else \
+           [("sl2z", 6, 6, 6), ("gl2z", 5, 4, 4), ("gl3z", 5, 2, 2), ("sl2zi", 5, 6, 2)]
 
     def tlc(p):
         grp, ml, mi, md = p
